@@ -304,6 +304,13 @@ def map_iter_order(I, m):
     if m.kind.startswith("BTree"):
         return sort_items(I, list(m.entries), lambda a, b: cmp_vals(I, a[0], b[0]))
     es = list(m.entries)
+    if len(es) > 4 and I.env.get("hash_order", "insertion") == "any":
+        # n! orders are out of reach: three representative orders (insertion, reversed, rotated), recorded as a restriction
+        note = "hash containers with more than 4 entries are iterated in 3 representative orders only (insertion, reversed, rotated)"
+        if note not in I.notes:
+            I.notes.append(note)
+        k = I.choose(3, "hash iteration order (representative)")
+        return es if k == 0 else (es[::-1] if k == 1 else es[len(es) // 2:] + es[:len(es) // 2])
     if len(es) > 1 and I.env.get("hash_order", "insertion") == "any":
         out = []
         while es:
